@@ -23,6 +23,8 @@ func runC05(r *engine.Run) {
 	r.Rule("WHO-livedelete", "see C04: a node the rebuilt trie still references is never handed to deleteNode (it would be recorded dead while reachable)")
 	r.Rule("DOM-samekey", "see C04: an unchanged re-write is not reported to the change collector (its hash would enter the dead set while live)")
 	r.Rule("FRESH-deadlist", "the sync-supplied dead list the trie keeps (deleteNodes) never aliases an argument: every store into the field is nil, newly made, or an append whose base is the field itself")
+	r.Rule("ORDER-stamp", "see C02: every node the trie builds is stamped with the trie version before it is hashed and stored (a rebuilt node that keeps an old origin re-creates a hash an earlier round recorded dead, and the prune deletes it while live)")
+	r.Rule("AGREE-split", "see C02: prefix and path of every leaf, and the prefix and remaining path handed down by the walks, add up to the key (two entries whose leaves get the same too-short prefix collapse into one stored node: deleting one records the other's node dead)")
 	r.Rule("WHO-deadlist", "GetDeletes reports the change collector's dead set, which AddChange reconciles when a node is re-created, together with deleteNodes, which nothing reconciles: a function that appends the elements of a slice onto deleteNodes never also hands an element of that slice to the collector (DeleteChange/AddChange, directly or via deleteNode/insertNode) - such a node would stay reported dead after a later transaction of the round re-created it")
 	r.Rule("DOM-recordwritten", "recording a round's dead nodes replaces the round's record: every return of saveDeadNodes is the result of the PutCF on the dead-nodes column family or an error that is non-nil on that path, and every return of RecordDeadNodes is the result of saveDeadNodes or such an error (no success shortcut, e.g. for an empty set, that would leave an abandoned execution's record in place)")
 	r.Rule("DEP-recordonly", "in RecordDeadNodes the record object is filled only by map stores whose keys derive from the nodes argument and is handed only to saveDeadNodes: the record of a round is exactly what this execution of the round reported (no merge with an earlier record of the same round)")
@@ -46,6 +48,8 @@ func runC05(r *engine.Run) {
 	domRecordWritten(r, "DOM-recordwritten")
 	freshDeadList(r, "FRESH-deadlist")
 	whoDeadList(r, "WHO-deadlist")
+	orderStamp(r, "ORDER-stamp")
+	agreeSplit(r)
 	domMergeAll(r, "DOM-mergeall")
 	whoCollect(r)
 	domMerge(r)
